@@ -34,15 +34,19 @@ ASSUMPTIONS = [
     "failures are reported by the running test about itself (TestFailure built from the current shell), as all check macros do",
 ]
 RULE = ("scripted registries: 1-5 group runs, pass / fail through every TestFailure constructor (file+line+message, message only, file+line only, FailFailure; from the body "
-        "and from a plugin's post-test action; inside the test, in a helper above it, in another file) / ignored tests, optional name filter, names-paths-messages over printable ASCII with ' | [ ] CR LF frequent and some "
+        "and from a plugin's post-test action; inside the test, in a helper above it, in another file) / ignored tests, optional name filter, repeated runs on one output object (-r2/-r3; single-group registries and registries whose first and last group coincide frequent), names-paths-messages over printable ASCII with ' | [ ] CR LF frequent and some "
         "longer than 100 bytes; non-trivial = the stream contains an escaped byte or a failure or an ignored test; distinct = distinct op sequences")
 
 
 def gen_case(rng, n, malformed=False, real_io=False):
-    ops = G.gen_registry(rng, n, empty_groups=malformed, repeat_groups=rng.random() < 0.3, with_package=False,
+    ops = G.gen_registry(rng, n, empty_groups=malformed, repeat_groups=rng.random() < 0.4, with_package=False,
                          with_prints=rng.random() < 0.3, print_avoid="#", specials=G.SPECIAL_TC + "&<\"")
     # the file of a print line is printed raw as well
     ops = [_clean_print(l) for l in ops]
+    if rng.random() < 0.3:
+        # -r<n>: one output object, n runs; the writer still remembers the last group of the previous run when the next
+        # starts (single-group registries and registries whose first and last group coincide are frequent)
+        ops.insert(0, "repeat %d" % rng.choice([2, 2, 3]))
     if real_io:
         # the real CommandLineTestRunner with -oteamcity in a process of its own, stdout a fully buffered pipe
         ops.insert(0, "realio")
@@ -140,6 +144,11 @@ def observe(r, rep):
         rep.count("branch.verbose")
     if any(a[0] == "print" and (b"#" in a[1] or b"#" in a[3]) for t in reg["tests"] for a in t["acts"]):
         rep.count("observation.test_prints_hash")
+    if reg["repeat"] > 1:
+        rep.count("branch.repeated_runs")
+        runs = G.group_runs(reg["tests"])
+        if runs and runs[0][0] == runs[-1][0]:
+            rep.count("branch.repeated_runs_first_group_equals_last")
     if reg["filter"] is not None:
         rep.count("branch.name_filter")
         if any(not G.should_run(reg, t) for t in reg["tests"]):
@@ -199,6 +208,7 @@ def py_judge(ops, stream):
                 want.append(("testFailed", t["name"], ffile, fline, msg, t))
             want.append(("testFinished", t["name"]))
         want.append(("testSuiteFinished", g))
+    want = want * reg["repeat"]
     got = []
     pos = 0
     # every occurrence of the marker must be a complete, well-formed message
